@@ -1,6 +1,7 @@
 package v2
 
 import (
+	"bytes"
 	"encoding/json"
 	"errors"
 	"net/http"
@@ -69,7 +70,10 @@ func getJsonResponse(r *http.Request, w http.ResponseWriter, resource queries.Re
 			return err
 		}
 		var fields map[string]any
-		err = json.Unmarshal(s, &fields)
+		// keep numbers as written: amounts do not fit a float64
+		dec := json.NewDecoder(bytes.NewReader(s))
+		dec.UseNumber()
+		err = dec.Decode(&fields)
 		if err != nil {
 			return err
 		}
